@@ -691,7 +691,12 @@ def _arr_reshape(ex, st, args, kw, node):
 ARRAY_METHODS = {"tolist": _arr_tolist, "copy": _arr_copy, "astype": _arr_astype, "any": _arr_any, "reshape": _arr_reshape}
 LIST_METHODS = {"append": _list_append, "extend": _list_extend}
 DICT_METHODS = {"get": _dict_get, "keys": _dict_keys}
-STR_METHODS = {"lower": _str_lower, "endswith": _str_endswith}
+def _str_join(ex, st, args, kw, node):
+    """sep.join(strings): an opaque string (string content is not modelled)"""
+    return StrV("<joined>")
+
+
+STR_METHODS = {"lower": _str_lower, "endswith": _str_endswith, "join": _str_join}
 
 # A-NAN: NaN is a distinguished real constant; only storing it and testing for it (isnan) are meaningful - a contract that lets it reach
 # arithmetic or an ordering comparison would be wrong about IEEE semantics, so such contracts must keep it out by precondition
